@@ -559,3 +559,52 @@ def record(run, name, progs, profile="dev", mode="run"):
             f.write(json.dumps(p) + "\n")
     harness(mode, inp, outp, profile)
     return [json.loads(l) for l in open(outp)]
+
+
+DRIFT_RE = re.compile(r'^<<"DRIFT", (.*)>>\s*$')
+
+
+def model_job(run, name, scope, workers=8, timeout=1500):
+    """Invariant family 1: the implementation-shaped machines against the definitions (MC_Model.tla; no implementation
+    involved).  A disagreement means the SPECIFICATION is inconsistent with itself: a tool error, never a VIOLATION."""
+    wd = run.wd
+    sp = os.path.join(wd, name + ".scope.json")
+    json.dump(scope, open(sp, "w"))
+    res = run_tlc("MC_Model", "MC.cfg", {"SCOPE": sp}, wd, workers=workers, timeout=timeout)
+    a = len(scope["alphabet"])
+    want = len(scope["cfgs"]) * sum(a ** l for l in range(scope["maxlen"] + 1))
+    if res["distinct"] != want or res["tally"].get("states") != want:
+        raise ToolError("%s: explored %d model states, expected %d" % (name, res["distinct"], want))
+    if res["viol"]:
+        v = res["viol"][0]
+        raise ToolError("%s: the specification is inconsistent with itself: %s for %s after %s" % (
+            name, v[1], json.dumps(scope["cfgs"][v[2] - 1]), decode_hist(v[4], v[3], scope["alphabet"])))
+    with run.lock:
+        run.states += res["distinct"]; run.transitions += res["states"]
+        run.jobs.append({"name": name, "pipeline": "model (family 1: machine = definition, no machine panic, cells <= bound)", "module": "MC_Model",
+                         "cfgs": len(scope["cfgs"]), "alphabet": scope["alphabet"], "maxlen": scope["maxlen"], "states": res["distinct"],
+                         "tally": res["tally"], "tlc_s": round(res["wall"], 2)})
+    return res
+
+
+def conf_job(run, name, scope, profile="dev", workers=5, timeout=1500):
+    """Invariant family 3: real observations against the machine (ProdM.tla).  Disagreement is DRIFT, reported and
+    recorded in the evidence; it is not a violation of any property (DESIGN.md section 4)."""
+    wd = run.wd
+    sp = os.path.join(wd, name + ".scope.json"); tb = os.path.join(wd, name + ".table.ndjson")
+    json.dump(scope, open(sp, "w"))
+    harness("table", sp, tb, profile)
+    res = run_tlc("ProdM", "MC.cfg", {"SCOPE": sp, "TABLE": tb}, wd, workers=workers, timeout=timeout)
+    drift = [json.loads("[" + m.group(1) + "]") for m in (DRIFT_RE.match(l) for l in res["out"].splitlines()) if m]
+    with run.lock:
+        run.states += res["distinct"]; run.transitions += res["states"]
+        kinds = sorted({kind_of(scope["cfgs"][d[0] - 1]) for d in drift})
+        run.jobs.append({"name": name, "pipeline": "P1 conformance (family 3: observation = machine)", "module": "ProdM", "profile": profile,
+                         "cfgs": len(scope["cfgs"]), "states": res["distinct"], "conforms": res["tally"].get("conforms", 0),
+                         "drift_states": res["tally"].get("drift", 0), "drift_views": kinds, "tlc_s": round(res["wall"], 2)})
+        for k in kinds:
+            ex = next(d for d in drift if kind_of(scope["cfgs"][d[0] - 1]) == k)
+            log("DRIFT view=%s: the code's observable behaviour differs from the implementation-shaped machine (e.g. %s after %s); "
+                "model-level results are not transferable for this view" % (k, json.dumps(scope["cfgs"][ex[0] - 1]), decode_hist(ex[2], ex[1], scope["alphabet"])))
+            run.notes.append("DRIFT %s" % k)
+    return res
